@@ -92,7 +92,7 @@ impl Outcome {
     }
 }
 
-pub type RunFn = Box<dyn Fn(u64, bool) -> Outcome + Send + Sync>;
+pub type RunFn = std::sync::Arc<dyn Fn(u64, bool) -> Outcome + Send + Sync>;
 
 pub struct Sub {
     pub name: String,
@@ -110,7 +110,7 @@ pub struct Sub {
 
 impl Sub {
     pub fn new(name: impl Into<String>, len: u64, rule: impl Into<String>, run: impl Fn(u64, bool) -> Outcome + Send + Sync + 'static) -> Sub {
-        Sub { name: name.into(), len, run: Box::new(run), witnesses: Vec::new(), rule: rule.into(), serial: false, expensive: false }
+        Sub { name: name.into(), len, run: std::sync::Arc::new(run), witnesses: Vec::new(), rule: rule.into(), serial: false, expensive: false }
     }
     pub fn witness(mut self, w: &[&'static str]) -> Sub {
         self.witnesses.extend_from_slice(w);
